@@ -533,6 +533,9 @@ where
                         // is durable — durable_index may exceed max_index after truncation,
                         // which would cause flush() to short-circuit before the replace lands.
                         self.remove_range(diverge_index..=u64::MAX);
+                        // The truncated suffix no longer exists: the next index to allocate is
+                        // the first truncated one (insert_to_memory raises it past the new tail).
+                        self.next_id.store(diverge_index, Ordering::Release);
                         self.insert_to_memory(tail);
                         let (done_tx, done_rx) = oneshot::channel();
                         self.command_sender
